@@ -602,11 +602,12 @@ impl serde::Serializer for MapKeySerializer {
         Err(key_must_be_str_or_num(Unexpected::Other("none")))
     }
 
-    fn serialize_some<T>(self, _value: &T) -> Result<Value>
+    // as in the text serializer: `Some(key)` is the key itself
+    fn serialize_some<T>(self, value: &T) -> Result<Value>
     where
         T: ?Sized + Serialize,
     {
-        Err(key_must_be_str_or_num(Unexpected::Option))
+        value.serialize(self)
     }
 
     fn serialize_seq(self, _len: Option<usize>) -> Result<Self::SerializeSeq> {
